@@ -330,7 +330,7 @@ def rule_sap_order(report, prog, rule='C05-R7'):
            and c.func.attr in ('append', 'appendleft', 'insert', 'extend', 'extendleft')]
     okk = len(ins) == 1 and (ins[0].func.attr == 'appendleft' or (ins[0].func.attr == 'insert' and try_const(ins[0].args[0]) == 0))
     e = prog.func('nfc.llcp.llc.ServiceAccessPoint.enqueue')
-    first = any(isinstance(l, ast.For) and norm(l.iter) == 'self.sock_list' and any(isinstance(b, ast.Break) for b in ast.walk(l)) for l in ast.walk(e.node))
+    first = any(isinstance(l, ast.For) and norm(l.iter) == 'self.sock_list' and any(isinstance(b, (ast.Break, ast.Return)) for b in ast.walk(l)) for l in ast.walk(e.node))
     report.check(okk and first, rule, key(f.qname, 'connection sockets are put in front of the listening socket'), f.loc(ins[0]) if ins else f.loc(),
                  'insert_socket() no longer prepends (`%s`) while enqueue() serves the first matching socket: the listening socket (peer None) '
                  'swallows the PDUs of every accepted connection' % (norm(ins[0]) if ins else ''))
